@@ -76,6 +76,7 @@ FAULTS = [
     ('i3', 'init_async_raise'), ('i3', 'init_async_never'), ('i3', 'start'),
     ('p4', 'restore'), ('p4', 'start'), ('p4', 'stop'),
     ('fb', 'first_eval'),
+    ('os', 'result_event'),
 ]
 CAUSES_R = ['none', 'shutdown', 'abort', 'ev_shutdown', 'ev_abort', 'handler', 'calc',
             'abort_before_start', 'ev_shutdown_at_init', 'ev_abort_at_init']
@@ -213,12 +214,37 @@ def build_circuit(edzed, case, hist, state):
                                        on_cancel=edzed.Event('oc', 'put', efilter=retry_once))
     makers.append(mk_oc)
 
+    def mk_os():
+        core.perturb_addresses(rng, keep)
+
+        async def coro(value):
+            hist.log('os_start', value)
+            await asyncio.sleep({'short': 1.5, 'long': 2.5}.get(value, 0.5))
+            hist.log('os_end', value)
+            return value
+
+        def result_filter(data):
+            # fault site ('os', 'result_event'): the delivery of the result event of the job
+            # that ends first (during the clean-up) fails inside the output task
+            if tuple(fault or ()) == ('os', 'result_event') and data.get('value') == 'short':
+                hist.log('raise', 'os', 'result_event')
+                raise Fault('os result event')
+            return True
+        # 'start' mode: jobs run concurrently; two of them are still running when the
+        # simulation ends, stop_data must be processed after both have finished
+        objs['os'] = edzed.OutputAsync('os', coro=coro, mode='s', stop_data={'value': 'STOP'},
+                                       on_error=None, stop_timeout=5, on_success=edzed.Event(
+                                           's0', 'ping', efilter=result_filter))
+    makers.append(mk_os)
+
     def lib():
         core.perturb_addresses(rng, keep)
         if comp != 'small':
-            objs['rp'] = edzed.Repeat('rp', dest='s0', etype='ping', interval=0.7)
-            objs['vp'] = edzed.ValuePoll('vp', func=lambda: 7, interval=0.9,
-                                         on_output=edzed.Event('rp', 'ping'))
+            # (explicit None = the default time-out, documented)
+            objs['rp'] = edzed.Repeat('rp', dest='s0', etype='ping', interval=0.7,
+                                      stop_timeout=None)
+            objs['vp'] = edzed.ValuePoll('vp', func=lambda: 7, interval=0.9, init_timeout=None,
+                                         stop_timeout=None, on_output=edzed.Event('rp', 'ping'))
 
             async def icoro():
                 await asyncio.sleep(2.0)
@@ -387,6 +413,8 @@ def run_case(case, ctx):
                     edzed.ExtEvent(objs['of']).send('work')
                     edzed.ExtEvent(objs['oa']).send('job')
                     edzed.ExtEvent(objs['oc']).send('job')
+                    edzed.ExtEvent(objs['os']).send('short')
+                    edzed.ExtEvent(objs['os']).send('long')
                     edzed.ExtEvent(objs['inp']).send(9)
                 except Exception as err:    # pylint: disable=broad-except
                     hist.log('traffic_refused', repr(err)[:60])
@@ -464,7 +492,9 @@ def run_case(case, ctx):
     res['exc_log'] = loop.exc_log
     life = state.get('life')
     blocks = life.blocks if life else []
-    res['blocks'] = [(b.name, bool(b.has_method('stop_async') and getattr(b, 'stop_timeout', 0) > 0)
+    def positive(x):
+        return isinstance(x, (int, float)) and x > 0
+    res['blocks'] = [(b.name, bool(b.has_method('stop_async') and positive(getattr(b, 'stop_timeout', 0)))
                       if isinstance(b, edzed.SBlock) else False,
                       getattr(b, 'stop_timeout', None)) for b in blocks]
     edzed.reset_circuit()
@@ -600,6 +630,23 @@ def judge(case, hist, state, res, ctx):
             ctx.count('stop_data_cancelled_running_job')
     elif 'STOP' in oc_calls:
         raise core.Violation('stop-data-without-start', f"{where}: OutputAsync runs {oc_calls}")
+    os_calls = [e[3] for e in E if e[2] == 'os_start']
+    if started.get('os'):
+        os_ends = [e[3] for e in E if e[2] == 'os_end']
+        if os_calls.count('STOP') != 1 or os_calls[-1] != 'STOP' or os_ends[-1:] != ['STOP']:
+            raise core.Violation(
+                'stop-data-not-last',
+                f"{where}: OutputAsync (start mode) runs started {os_calls}, finished {os_ends} "
+                "(block was started)")
+        if 'long' in os_calls:
+            ctx.count('stop_data_after_concurrent_jobs')
+            if os_ends.count('long') != 1 or os_ends.index('long') > os_ends.index('STOP'):
+                raise core.Violation(
+                    'stop-data-not-last',
+                    f"{where}: OutputAsync (start mode): the job running at the stop did not "
+                    f"finish before stop_data: finished {os_ends}")
+    elif 'STOP' in os_calls:
+        raise core.Violation('stop-data-without-start', f"{where}: OutputAsync runs {os_calls}")
     # ---- L6 ----
     if res['restart'] != 'refused':
         raise core.Violation('finished-circuit-restarted', f"{where}: run_forever() again: {res['restart']}")
